@@ -217,6 +217,12 @@ func (s *Server) HandleValidate(w http.ResponseWriter, r *http.Request) {
 	if !ok {
 		logger.Info("Failed admissionv1.AdmissionReview type assertion")
 		http.Error(w, "unexpected AdmissionReview type", http.StatusBadRequest)
+		return
+	}
+	if review.Request == nil {
+		logger.Info("AdmissionReview without a request")
+		http.Error(w, "AdmissionReview without a request", http.StatusBadRequest)
+		return
 	}
 	logger.V(1).Info("received request", "UID", review.Request.UID, "kind", review.Request.Kind, "resource", review.Request.Resource)
 
